@@ -18,7 +18,7 @@ ALL_KINDS = ["SMA", "EMA", "RMA", "WMA", "VWMA", "HMA", "TR", "ATR", "StandardDe
              "HighestLowest", "HighLowAverage", "Supertrend", "StandardDeviationThreshold", "Counter", "RSI", "MACD", "ROC",
              "STOCH", "TSI", "AROON", "ADX", "OBV", "VWAP"]
 FAMILIES = ["flat", "identical", "rising", "falling", "zerovol", "allzerovol", "walk-flat", "flat-walk", "one-jump", "fill", "fill-sparse", "repeat",
-            "walk-longflat", "flat-gappy"]
+            "walk-longflat", "flat-gappy", "onedge", "grid", "shock"]
 # output fields that are None by design while the other one is set (Supertrend reports the band on the side of the trend only)
 EXCLUSIVE_FIELDS = {"Supertrend": {"long", "short"}}
 
@@ -26,7 +26,7 @@ EXCLUSIVE_FIELDS = {"Supertrend": {"long", "short"}}
 def gen_family(rng, family, n):
     """-> (stream with timestamps, tf | None, fill)"""
     tf, fill = None, False
-    if family in ("flat", "rising", "falling", "zerovol", "repeat"):
+    if family in ("flat", "rising", "falling", "zerovol", "repeat", "onedge", "grid", "shock"):
         stream, _ = gen.gen_stream(rng, n, price_style=family, ts_style="regular", step=60)
     elif family == "flat-gappy":  # every candle flat (o=h=l=c) but the level jumps between candles: all range is gap
         stream, _ = gen.gen_stream(rng, n, price_style="flat", ts_style="regular", step=60)
